@@ -22,6 +22,8 @@ pub enum Act {
     Ins(It),
     /// snapshot (Database::snapshot / read_tx) reading the listed keys
     SnapRead(Vec<(&'static str, &'static str)>),
+    /// snapshot read of the keys, a scheduling point, then the same reads again through the same snapshot (C05)
+    SnapReadTwice(Vec<(&'static str, &'static str)>),
     /// one forward scan over a keyspace
     Scan(&'static str),
     Rotate(&'static str),
@@ -158,6 +160,28 @@ impl Body for VisBody {
                                     out.push((ks.to_string(), k.to_string(), val(snap.get(&kss[ks], *k))));
                                 }
                                 seen.lock().unwrap().push((tid, "snapshot".into(), out));
+                            }
+                            Act::SnapReadTwice(keys) => {
+                                let snap = db.inner().snapshot();
+                                let mut first = vec![];
+                                for (ks, k) in keys {
+                                    first.push((ks.to_string(), k.to_string(), val(snap.get(&kss[ks], *k))));
+                                }
+                                for _ in 0..3 {
+                                    client_point("client.between_reads");
+                                }
+                                let mut second = vec![];
+                                for (ks, k) in keys {
+                                    client_point("client.snapread");
+                                    second.push((ks.to_string(), k.to_string(), val(snap.get(&kss[ks], *k))));
+                                }
+                                if first != second {
+                                    return Err(format!("NOT-REPEATABLE first {first:?} second {second:?}"));
+                                }
+                                if first.iter().chain(second.iter()).any(|o| o.2.starts_with("ERR")) {
+                                    return Err(format!("read error {first:?} {second:?}"));
+                                }
+                                seen.lock().unwrap().push((tid, "snapshot".into(), first));
                             }
                             Act::Scan(ks) => {
                                 let mut out = vec![];
